@@ -45,3 +45,50 @@ def raw_yaml(group: str):
 
     p = C.REPO / "src" / "_gettsim" / "parameters" / f"{group}.yaml"
     return yaml.load(p.read_text(encoding="utf-8"), Loader=yaml.CLoader)
+
+
+# ---------------------------------------------------------------------------
+# canonical environments for many dates, computed in a pool and cached per source hash
+
+
+def _env_worker(o):
+    import modelio as M
+
+    setup()
+    try:
+        params, functions = env(o)
+    except Exception as ex:  # noqa: BLE001
+        return o, ("err", type(ex).__name__, str(ex)[:200]), None
+    return o, M.canon_py(params), {k: getattr(f, "__name__", str(f)) for k, f in functions.items()}
+
+
+def all_env_canon(ordinals, source_hash=None):
+    """{ordinal: (canonical params | ('err', kind, msg), {dag name: python function name})}"""
+    import multiprocessing as mp
+    import pickle
+
+    cache = None
+    have = {}
+    if source_hash:
+        d = C.WORK / "cache"
+        d.mkdir(parents=True, exist_ok=True)
+        cache = d / f"env_{source_hash[:16]}.pkl"
+        for old in d.glob("env_*.pkl"):
+            if old != cache:
+                old.unlink()
+        if cache.exists():
+            try:
+                have = pickle.loads(cache.read_bytes())
+            except Exception:  # noqa: BLE001
+                have = {}
+    todo = [o for o in ordinals if o not in have]
+    if todo:
+        with mp.Pool(14) as pool:
+            for o, p, f in pool.imap_unordered(_env_worker, todo, chunksize=2):
+                have[o] = (p, f)
+        if cache is not None:
+            with C.locked("envcache"):
+                tmp = cache.with_suffix(".tmp")
+                tmp.write_bytes(pickle.dumps(have))
+                tmp.replace(cache)
+    return {o: have[o] for o in ordinals}
